@@ -945,6 +945,14 @@ def judge_linear_case(expected_str, student_str, E, S, credits, cred, tol, xs, s
     g = FormulaGrader(answers={'expect': {'comparer': lc, 'comparer_params': [expected_str]}, 'grade_decimal': cred},
                       variables=['x'], sample_from={'x': Scripted(values=xs)}, samples=len(xs), tolerance=tol)
     want, holds, zero = linear_expected(S, E, credits, tol, cred)
+    if seed % 2 == 1:
+        # history: the same grader (and comparer instance) first grades a zero submission; the comparer's handling
+        # of zero must not leak into the judged call (a seeded change stored the reduced mode list on the instance)
+        try:
+            run(g, '0', seed, rec)
+        except Exception:  # noqa: BLE001 - only the judged call below is judged
+            pass
+        rec.cls('linear/after-zero-comparison')
     out = run(g, student_str, seed, rec)
     res, exc = out
     obs = {'expected': expected_str, 'student': student_str, 'credits': credits, 'holds': holds, 'want': want,
